@@ -218,7 +218,11 @@ class Register:
 
         context = context or {}
 
-        if self.size is not None and (idx >= self.size or idx < 0):
+        size = self.size
+        while isinstance(size, AnnotatedValue):
+            # The size of a register may be given by a let constant.
+            size = size.resolve_value(context)
+        if size is not None and (idx >= size or idx < 0):
             raise JaqalError("Index out of range.")
         if self.fundamental:
             return (self, idx)
